@@ -26,7 +26,9 @@ import (
 
 	"perkeep.org/pkg/auth"
 	"perkeep.org/pkg/blob"
+	"perkeep.org/pkg/blobserver/memory"
 	"perkeep.org/pkg/client"
+	"perkeep.org/pkg/schema"
 	"pgregory.net/rapid"
 
 	"verifharness/internal/evid"
@@ -155,16 +157,18 @@ func absentRef(seed uint64, i int) string {
 // ---------------------------------------------------------------------------
 
 type caseEnv struct {
-	t      *rapid.T
-	spec   vhttp.Spec
-	srv    *vhttp.Server
-	root   string // blob root URL without trailing slash
-	hc     *http.Client
-	cl     *client.Client
-	m      *model
-	log    []string
-	pages2 bool // a paged enumeration with >= 2 pages happened
-	mixed  bool // a stat batch mixing present and absent refs happened
+	t         *rapid.T
+	spec      vhttp.Spec
+	srv       *vhttp.Server
+	root      string // blob root URL without trailing slash
+	hc        *http.Client
+	cl        *client.Client
+	m         *model
+	log       []string
+	files     int  // files uploaded by clientUploadFile
+	longPolls int  // concurrentLongPollStat rounds
+	pages2    bool // a paged enumeration with >= 2 pages happened
+	mixed     bool // a stat batch mixing present and absent refs happened
 	// refs offered with wrong bytes (must stay absent unless uploaded genuinely later)
 	refused map[string]bool
 }
@@ -246,6 +250,59 @@ func (e *caseEnv) clientUpload() {
 	}
 	e.m.blobs[b.ref] = b.data
 	delete(e.refused, b.ref)
+}
+
+// clientUploadFile uploads a file of at least 512 KiB the way camput does: its chunks, then the file schema
+// blob. On the packRelated configurations the last upload makes the server pack the chunks into zip blobs
+// stored under <blobPath>/packed; the protocol must keep showing the logical blobs, exactly once each.
+func (e *caseEnv) clientUploadFile() {
+	if e.files >= 2 {
+		e.t.Skip("two files per history are enough")
+	}
+	e.files++
+	size := 512<<10 + rapid.IntRange(0, 200<<10).Draw(e.t, "fileExtra")
+	seed := rapid.Uint64Range(1, 1<<30).Draw(e.t, "fileSeed")
+	staging := &memory.Storage{}
+	content := xorshift(seed, size)
+	fileRef, err := schema.WriteFileFromReader(context.Background(), staging, fmt.Sprintf("c18-%d.bin", seed), bytes.NewReader(content))
+	if err != nil {
+		e.t.Fatalf("harness: cutting the file: %v", err)
+	}
+	var refs []string
+	for _, rs := range staging.BlobrefStrings() {
+		if rs != fileRef.String() {
+			refs = append(refs, rs)
+		}
+	}
+	sort.Strings(refs)
+	refs = append(refs, fileRef.String())
+	e.logf("client.Upload of a %d-byte file: %d chunk and schema blobs, then the file schema blob %s", size, len(refs)-1, fileRef)
+	for _, rs := range refs {
+		br := blob.MustParse(rs)
+		c, _ := staging.BlobContents(br)
+		data := []byte(c)
+		h := &client.UploadHandle{BlobRef: br, Size: uint32(len(data)), Contents: bytes.NewReader(data)}
+		pr, err := e.cl.Upload(context.Background(), h)
+		if err != nil {
+			e.violate("client.Upload(%s, %d bytes, part of the file %s) failed: %v", rs, len(data), fileRef, err)
+		}
+		if pr.BlobRef != br || int(pr.Size) != len(data) {
+			e.violate("client.Upload(%s, %d bytes) returned %v size %d", rs, len(data), pr.BlobRef, pr.Size)
+		}
+		e.m.blobs[rs] = data
+		delete(e.refused, rs)
+	}
+	// straight away: the first page of the enumeration and a stat of all parts
+	e.onePage("", 0, "", "")
+	got := map[string]int{}
+	var brs []blob.Ref
+	for _, rs := range refs {
+		brs = append(brs, blob.MustParse(rs))
+	}
+	if err := e.cl.StatBlobs(context.Background(), brs, func(sb blob.SizedRef) error { got[sb.Ref.String()] = int(sb.Size); return nil }); err != nil {
+		e.violate("client.StatBlobs of the %d blobs of the uploaded file failed: %v", len(refs), err)
+	}
+	e.checkStat("client.StatBlobs after the file upload", refs, got, false)
 }
 
 type uploadResp struct {
@@ -510,6 +567,86 @@ func (e *caseEnv) checkStat(what string, refs []string, got map[string]int, dups
 	for r := range got {
 		if !asked[r] {
 			e.violate("%s: stat result contains %s which was not asked for", what, r)
+		}
+	}
+}
+
+// concurrentLongPollStat: several clients long-poll (maxwaitsec) for the same blob that is not there yet,
+// then it is uploaded. Every one of them must get a well-formed answer (a dropped connection or a 5xx is
+// not an answer); an answer that lists the blob lists its right size. No wall-clock verdict: whether a
+// waiter answers at the upload or at its deadline is only counted.
+func (e *caseEnv) concurrentLongPollStat() {
+	if e.longPolls >= 2 {
+		e.t.Skip("two concurrent long-poll rounds per history are enough")
+	}
+	e.longPolls++
+	b := genBlob(e.t, e.m)
+	if _, had := e.m.blobs[b.ref]; had {
+		e.t.Skip("drew a blob that is already there")
+	}
+	k := rapid.IntRange(2, 3).Draw(e.t, "waiters")
+	method := rapid.SampledFrom([]string{"GET", "POST"}).Draw(e.t, "lpMethod")
+	e.logf("raw %s camli/stat by %d concurrent long-pollers (maxwaitsec=2) for the absent %s, then client.Upload of it", method, k, b.ref)
+	type ans struct {
+		status int
+		body   []byte
+		err    error
+	}
+	out := make(chan ans, k)
+	q := "camliversion=1&maxwaitsec=2&blob1=" + b.ref
+	for i := 0; i < k; i++ {
+		go func() {
+			var req *http.Request
+			if method == "GET" {
+				req, _ = http.NewRequest("GET", e.root+"/camli/stat?"+q, nil)
+			} else {
+				req, _ = http.NewRequest("POST", e.root+"/camli/stat", strings.NewReader(q))
+				req.Header.Set("Content-Type", "application/x-www-form-urlencoded")
+			}
+			req.SetBasicAuth(user, pass)
+			res, err := e.hc.Do(req)
+			if err != nil {
+				out <- ans{err: err}
+				return
+			}
+			defer res.Body.Close()
+			body, err := io.ReadAll(res.Body)
+			out <- ans{status: res.StatusCode, body: body, err: err}
+		}()
+	}
+	time.Sleep(time.Duration(rapid.IntRange(0, 60).Draw(e.t, "uploadAfterMS")) * time.Millisecond)
+	h := &client.UploadHandle{BlobRef: blob.MustParse(b.ref), Size: uint32(len(b.data)), Contents: bytes.NewReader(b.data)}
+	if _, err := e.cl.Upload(context.Background(), h); err != nil {
+		e.violate("client.Upload(%s) while %d clients long-poll for it failed: %v", b.ref, k, err)
+	}
+	e.m.blobs[b.ref] = b.data
+	delete(e.refused, b.ref)
+	for i := 0; i < k; i++ {
+		a := <-out
+		what := fmt.Sprintf("long-poll stat #%d of %d concurrent ones for %s (uploaded meanwhile)", i+1, k, b.ref)
+		if a.err != nil {
+			var ne interface{ Timeout() bool }
+			if errors.As(a.err, &ne) && ne.Timeout() {
+				e.t.Fatalf("VERIF-INCONCLUSIVE harness: %s: %v", what, a.err)
+			}
+			e.violate("%s got no answer: %v", what, a.err)
+		}
+		if a.status != 200 {
+			e.violate("%s answered HTTP %d %q", what, a.status, trimQ(string(a.body)))
+		}
+		var sr statResp
+		if err := json.Unmarshal(a.body, &sr); err != nil {
+			e.violate("%s: response is not JSON: %v %q", what, err, trimQ(string(a.body)))
+		}
+		for _, st := range sr.Stat {
+			if st.BlobRef != b.ref || st.Size != len(b.data) {
+				e.violate("%s lists %s size %d; asked for %s (%d bytes)", what, st.BlobRef, st.Size, b.ref, len(b.data))
+			}
+		}
+		if len(sr.Stat) == 1 {
+			evid.R.Label("stat/concurrent-long-poll/answered-with-the-blob")
+		} else {
+			evid.R.Label("stat/concurrent-long-poll/answered-without-the-blob")
 		}
 	}
 }
@@ -844,17 +981,19 @@ func runHistories(t *testing.T, storage, index string) {
 		e.onePage("", 0, "", "")
 
 		t.Repeat(map[string]func(*rapid.T){
-			"clientUpload": func(*rapid.T) { e.clientUpload() },
-			"rawMultipart": func(*rapid.T) { e.rawMultipart() },
-			"rawPut":       func(*rapid.T) { e.rawPut() },
-			"rawGet":       func(*rapid.T) { e.rawGet() },
-			"rawHead":      func(*rapid.T) { e.rawHead() },
-			"clientFetch":  func(*rapid.T) { e.clientFetch() },
-			"rawStat":      func(*rapid.T) { e.rawStat() },
-			"clientStat":   func(*rapid.T) { e.clientStat() },
-			"rawEnumPage":  func(*rapid.T) { e.rawEnumPage() },
-			"rawEnumAll":   func(*rapid.T) { e.rawEnumAll() },
-			"clientEnum":   func(*rapid.T) { e.clientEnum() },
+			"clientUpload":           func(*rapid.T) { e.clientUpload() },
+			"clientUploadFile":       func(*rapid.T) { e.clientUploadFile() },
+			"rawMultipart":           func(*rapid.T) { e.rawMultipart() },
+			"rawPut":                 func(*rapid.T) { e.rawPut() },
+			"rawGet":                 func(*rapid.T) { e.rawGet() },
+			"rawHead":                func(*rapid.T) { e.rawHead() },
+			"clientFetch":            func(*rapid.T) { e.clientFetch() },
+			"rawStat":                func(*rapid.T) { e.rawStat() },
+			"concurrentLongPollStat": func(*rapid.T) { e.concurrentLongPollStat() },
+			"clientStat":             func(*rapid.T) { e.clientStat() },
+			"rawEnumPage":            func(*rapid.T) { e.rawEnumPage() },
+			"rawEnumAll":             func(*rapid.T) { e.rawEnumAll() },
+			"clientEnum":             func(*rapid.T) { e.clientEnum() },
 		})
 		// closing sweep: everything uploaded is still there, exactly once, with its bytes
 		e.logf("final sweep")
@@ -893,6 +1032,9 @@ func runHistories(t *testing.T, storage, index string) {
 		}
 		if e.mixed {
 			evid.R.Label("history/with-mixed-stat-batch")
+		}
+		if e.files > 0 {
+			evid.R.Label("history/with-packable-file-upload")
 		}
 		if nt {
 			evid.R.NonTrivial(evid.Hash("hist", storage, index, strings.Join(e.log, "\n")))
